@@ -1,4 +1,5 @@
 import PEval.Model.Basic
+import PEval.Model.FrameChange
 /-!
 # C19 — model of the analysis tables (`tool/perception_analyzer_base.py`, `tool/perception_analyzer3d.py`,
 `tool/utils.py`, `evaluation/result/perception_frame_result.py:get_object_status`, `common/status.py`)
@@ -453,10 +454,10 @@ def labelIndices (tl : List String) : List String → Except Err (List Nat)
 def bincountMatrix (n : Nat) (indices : List Nat) : List (List Nat) :=
   (List.range n).map fun i => (List.range n).map fun j => indices.count (n * i + j)
 
-def getConfusionMatrix (labels : List String) (t : Table) : Except Err (Option (List (List Nat))) :=
+/-- the body of `get_confusion_matrix` for a given index `tl` of the matrix (row / column labels) -/
+def confusionWith (tl : List String) (t : Table) : Except Err (Option (List (List Nat))) :=
   if t.isEmpty then .ok none else
   let pairs := getPairResults t
-  let tl := confusionLabels labels
   match labelIndices tl (pairs.map (·.1.obj.label)), labelIndices tl (pairs.map (·.2.obj.label)) with
   | .ok gi, .ok ei =>
     let n := tl.length
@@ -464,6 +465,26 @@ def getConfusionMatrix (labels : List String) (t : Table) : Except Err (Option (
     if indices.isEmpty then .ok none else .ok (some (bincountMatrix n indices))
   | .error e, _ => .error e
   | _, .error e => .error e
+
+/-- PRE-FIX behaviour (finding N3, repaired by `fix:` 24663d1): the index is `target_labels + ["unknown"]` only, and
+`target_labels.index(label)` raised `ValueError` for a paired row with any other label.  Kept for the characterising
+theorems (`PEval.C19.confusion_error_iff` …). -/
+def getConfusionMatrixOld (labels : List String) (t : Table) : Except Err (Option (List (List Nat))) :=
+  confusionWith (confusionLabels labels) t
+
+/-- `for label in pd.concat([gt_df["label"], est_df["label"]]).unique(): if label not in target_labels: append` -/
+def extendLabels (tl : List String) (ls : List String) : List String :=
+  ls.foldl (fun acc l => if acc.contains l then acc else acc ++ [l]) tl
+
+/-- the index of the matrix after the repair: `target_labels`, `"unknown"`, then every other label met in the paired
+rows, in order of first occurrence — the ground-truth column's labels in row order first, then the estimate column's -/
+def confusionIndex (labels : List String) (t : Table) : List String :=
+  let pairs := getPairResults t
+  extendLabels (confusionLabels labels) (pairs.map (·.1.obj.label) ++ pairs.map (·.2.obj.label))
+
+/-- `get_confusion_matrix(df)` (repaired code) -/
+def getConfusionMatrix (labels : List String) (t : Table) : Except Err (Option (List (List Nat))) :=
+  confusionWith (confusionIndex labels t) t
 
 /-! ## `analyze` -/
 
@@ -486,6 +507,17 @@ def analyze (labels : List String) (full : Table) (s : Sel) (distance : Option (
   | .ok df =>
     if df.isEmpty then .ok none else
     match getConfusionMatrix labels df with
+    | .error e => .error e
+    | .ok cm => .ok (some ⟨summarizeRatio labels df, summarizeError labels full df, cm⟩)
+
+/-- PRE-FIX `analyze` (finding N3): the same with `getConfusionMatrixOld` -/
+def analyzeOld (labels : List String) (full : Table) (s : Sel) (distance : Option (Rat × Rat)) :
+    Except Err (Option Analysis) :=
+  match selectTable full s distance with
+  | .error e => .error e
+  | .ok df =>
+    if df.isEmpty then .ok none else
+    match getConfusionMatrixOld labels df with
     | .error e => .error e
     | .ok cm => .ok (some ⟨summarizeRatio labels df, summarizeError labels full df, cm⟩)
 
@@ -523,5 +555,197 @@ def frameEvents (f : Frame) : List (String × Status × Nat) :=
 
 def getObjectStatus (frames : List Frame) : List GtStatus :=
   (frames.flatMap frameEvents).foldl (fun infos ev => addTo ev.1 ev.2.1 ev.2.2 infos) []
+
+/-! ## objects as they are handed over: `BASE_LINK` or `MAP` frame (`format2dict`, `get_area_idx`)
+
+`Obj` above already holds the ego-frame columns.  The code receives `DynamicObject`s in the frame of the evaluation
+(`frame_id` = `base_link` or `map`) together with the frame's transforms (the ego pose `base_link → map`) and brings
+every object to `BASE_LINK` itself, twice: in `format2dict`
+(`transforms.transform(TransformKey(obj.frame_id, BASE_LINK), position, orientation)`, then `x, y, _ = position`,
+`yaw = rotation.yaw_pitch_roll[0]`) and, independently, in `get_area_idx` (`x, y, _ = transforms.transform(key, position)`).
+`RawObj` is the object as given, `RawObj.toRow` the row `format2dict` writes, `getAreaIdxRaw` the area lookup.  The height
+`z` of the transformed position is discarded by both; velocities are copied untransformed (`state.velocity[:2]`). -/
+
+inductive FrameId where
+  | baseLink | map
+  deriving DecidableEq, Repr
+
+/-- a `DynamicObject` as handed to the analyzer: position (3-D) and yaw (half-turns, in (-1, 1]) in ITS frame -/
+structure RawObj where
+  frame : FrameId
+  uuid : String
+  label : String
+  pos : Geometry.V3
+  yaw : Rat
+  width : Rat
+  length : Rat
+  vx : Option Rat
+  vy : Option Rat
+  deriving DecidableEq, Repr
+
+/-- `transforms.transform(TransformKey(frame_id, BASE_LINK), position)`: the input itself when source = destination,
+else the inverse of the registered `base_link → map` matrix -/
+def egoPosition (e : FrameChange.Pose) (o : RawObj) : Geometry.V3 :=
+  match o.frame with
+  | .baseLink => o.pos
+  | .map => FrameChange.toEgo3 e o.pos
+
+/-- `yaw_pitch_roll[0]` of the transformed orientation: principal value of `yaw − ego yaw` for a map-frame object -/
+def egoYaw (e : FrameChange.Pose) (o : RawObj) : Rat :=
+  match o.frame with
+  | .baseLink => o.yaw
+  | .map => Heading.toEgoYaw e.tau o.yaw
+
+/-- the columns `format2dict` writes for one object (`x, y, _ = position`: the height is dropped) -/
+def RawObj.toRow (e : FrameChange.Pose) (o : RawObj) : Obj :=
+  { uuid := o.uuid, label := o.label, x := (egoPosition e o).x, y := (egoPosition e o).y, yaw := egoYaw e o,
+    width := o.width, length := o.length, vx := o.vx, vy := o.vy }
+
+/-- `get_area_idx(object, upper_rights, bottom_lefts, transforms)` -/
+def getAreaIdxRaw (a : Areas) (e : FrameChange.Pose) (o : RawObj) : Except Err (Option Nat) :=
+  let p := egoPosition e o
+  getAreaIdx a p.x p.y
+
+def areaOfRaw (a : Areas) (e : FrameChange.Pose) (o : RawObj) : Option Nat :=
+  match getAreaIdxRaw a e o with
+  | .ok r => r
+  | .error _ => none
+
+/-- the `distance` column, squared: `np.linalg.norm([x, y])` of the ego-frame position -/
+def Obj.dist2 (o : Obj) : Rat := o.x * o.x + o.y * o.y
+
+structure RawPair where
+  est : RawObj
+  gt : Option RawObj
+  deriving DecidableEq, Repr
+
+/-- one `PerceptionFrameResult` as given: pass/fail lists of raw objects and the frame's ego pose -/
+structure RawFrame where
+  ego : FrameChange.Pose
+  frameNum : Nat
+  tp : List RawPair
+  fp : List RawPair
+  tn : List RawObj
+  fn : List RawObj
+  critical : List RawObj
+  deriving Repr
+
+/-- `format2dict` for a result given in any frame (area of the ESTIMATE, through `get_area_idx`) -/
+def resultCellsRaw (a : Areas) (e : FrameChange.Pose) (scene frame : Nat) (st : Status) (p : RawPair) :
+    Option Cell × Option Cell :=
+  let ar := areaOfRaw a e p.est
+  (p.gt.map fun g => ⟨st, g.toRow e, ar, frame, scene⟩, some ⟨st, p.est.toRow e, ar, frame, scene⟩)
+
+def objectCellsRaw (a : Areas) (e : FrameChange.Pose) (scene frame : Nat) (st : Status) (o : RawObj) :
+    Option Cell × Option Cell :=
+  (some ⟨st, o.toRow e, areaOfRaw a e o, frame, scene⟩, none)
+
+/-- `add_frame` on a frame result given in any frame -/
+def addFrameRaw (a : Areas) (scene : Nat) (t : Table) (f : RawFrame) : Table :=
+  let start := t.length
+  let tpDf := format2df (resultCellsRaw a f.ego scene f.frameNum .TP) f.tp start
+  let start := start + tpDf.length
+  let fpDf := format2df (resultCellsRaw a f.ego scene f.frameNum .FP) f.fp start
+  let start := start + fpDf.length
+  let tnDf := format2df (objectCellsRaw a f.ego scene f.frameNum .TN) f.tn start
+  let start := start + tnDf.length
+  let fnDf := format2df (objectCellsRaw a f.ego scene f.frameNum .FN) f.fn start
+  t ++ tpDf ++ fpDf ++ tnDf ++ fnDf
+
+def Analyzer.addRaw (ar : Areas) (a : Analyzer) (frames : List RawFrame) : Analyzer :=
+  { numScene := a.numScene + 1
+    numFrame := a.numFrame + frames.length
+    table := frames.foldl (addFrameRaw ar a.numScene) a.table }
+
+def addAllRaw (ar : Areas) (scenes : List (List RawFrame)) : Analyzer :=
+  scenes.foldl (Analyzer.addRaw ar) {}
+
+/-- the ego-frame view of a raw pair / frame: what the older part of the model starts from -/
+def RawPair.toPair (e : FrameChange.Pose) (p : RawPair) : Pair := ⟨p.est.toRow e, p.gt.map (·.toRow e)⟩
+
+def RawFrame.toFrame (f : RawFrame) : Frame :=
+  { frameNum := f.frameNum, tp := f.tp.map (·.toPair f.ego), fp := f.fp.map (·.toPair f.ego),
+    tn := f.tn.map (·.toRow f.ego), fn := f.fn.map (·.toRow f.ego), critical := f.critical.map (·.toRow f.ego) }
+
+/-- the two renderings of one physical object whose ego-frame description is `o` (`o.frame = baseLink`):
+as it is, or moved into the map frame by the ego pose (position by the rigid motion incl. heights, yaw as the
+principal value of the sum; what a dataset in the map frame holds) -/
+def RawObj.renderMap (e : FrameChange.Pose) (o : RawObj) : RawObj :=
+  { o with frame := .map, pos := e.motion.apply3 o.pos, yaw := Heading.wrapYaw (o.yaw + e.tau) }
+
+def RawPair.renderMap (e : FrameChange.Pose) (p : RawPair) : RawPair := ⟨p.est.renderMap e, p.gt.map (·.renderMap e)⟩
+
+def RawFrame.renderMap (f : RawFrame) : RawFrame :=
+  { f with tp := f.tp.map (·.renderMap f.ego), fp := f.fp.map (·.renderMap f.ego), tn := f.tn.map (·.renderMap f.ego),
+           fn := f.fn.map (·.renderMap f.ego), critical := f.critical.map (·.renderMap f.ego) }
+
+/-- DEFECTIVE variant (kept for the witness `toRow_noTransform_fails`): the object's own coordinates are tabulated,
+whatever its frame -/
+def RawObj.toRowNoTransform (o : RawObj) : Obj :=
+  { uuid := o.uuid, label := o.label, x := o.pos.x, y := o.pos.y, yaw := o.yaw,
+    width := o.width, length := o.length, vx := o.vx, vy := o.vy }
+
+/-! ## `get_confusion_matrix`, variants for the witness examples of N3
+
+`getConfusionMatrixOld` above is the pre-fix code: `target_labels.index(label)` raised `ValueError` for a label outside
+`target_labels + ["unknown"]`.  `getConfusionMatrixSkip` is a DEFECTIVE variant that silently drops such rows (the
+matrix then sums to fewer than the paired rows); `getConfusionMatrixExt` spells the repair as "the old function on the
+extended label list" (`getConfusionMatrixExt_eq`: it is the repaired `getConfusionMatrix`). -/
+
+def labelIndicesSkip (tl : List String) (pairs : List (String × String)) : List (Nat × Nat) :=
+  pairs.filterMap fun (g, e) =>
+    match tl.idxOf? g, tl.idxOf? e with
+    | some i, some j => some (i, j)
+    | _, _ => none
+
+def getConfusionMatrixSkip (labels : List String) (t : Table) : Option (List (List Nat)) :=
+  let pairs := getPairResults t
+  let tl := confusionLabels labels
+  let n := tl.length
+  let indices := (labelIndicesSkip tl (pairs.map fun p => (p.1.obj.label, p.2.obj.label))).map fun (g, e) => n * g + e
+  if indices.isEmpty then none else some (bincountMatrix n indices)
+
+def getConfusionMatrixExt (labels : List String) (t : Table) : Except Err (Option (List (List Nat))) :=
+  getConfusionMatrixOld (confusionIndex labels t) t
+
+/-! ## `summarize_error`, DEFECTIVE variant for the witness example: per-label rows chosen by the ESTIMATE's label -/
+
+def summarizeErrorByEst (labels : List String) (full sel : Table) :
+    List (String × List (Col × Option Summary)) :=
+  ("ALL", summarizeCols sel) :: labels.map fun L =>
+    let idx := (sel.filter fun r =>
+      r.est.any fun c => [Status.TP, .FP, .TN].contains c.status && c.obj.label == L).map (·.index)
+    (L, if idx.isEmpty then summarizeCols [] else summarizeCols (full.filter fun r => idx.contains r.index))
+
+/-! ## `GroundTruthStatus.get_status_rates`, `StatusRate.rate`, `get_scene_rates` (`common/status.py`) -/
+
+/-- `StatusRate.rate`: `num_status / num_total if num_status != 0 and num_total != 0 else float("inf")`
+(`none` = `inf`: also for a status that never occurred) -/
+def statusRate (numStatus numTotal : Nat) : Option Rat :=
+  if numStatus ≠ 0 ∧ numTotal ≠ 0 then some ((numStatus : Rat) / (numTotal : Rat)) else none
+
+/-- `get_status_rates()`: (TP, FP, TN, FN) order -/
+def GtStatus.statusRates (s : GtStatus) : List (Status × Option Rat) :=
+  [(.TP, statusRate s.tp.length s.total.length), (.FP, statusRate s.fp.length s.total.length),
+   (.TN, statusRate s.tn.length s.total.length), (.FN, statusRate s.fn.length s.total.length)]
+
+structure SceneCounts where
+  total : Nat := 0
+  tp : Nat := 0
+  fp : Nat := 0
+  tn : Nat := 0
+  fn : Nat := 0
+  deriving DecidableEq, Repr
+
+/-- the accumulation loop of `get_scene_rates` -/
+def sceneCounts (l : List GtStatus) : SceneCounts :=
+  l.foldl (fun c s => { total := c.total + s.total.length, tp := c.tp + s.tp.length, fp := c.fp + s.fp.length,
+                        tn := c.tn + s.tn.length, fn := c.fn + s.fn.length }) {}
+
+/-- `get_scene_rates(status_list)`: `none` = the four `inf` of an empty tally -/
+def sceneRates (l : List GtStatus) : Option (Rat × Rat × Rat × Rat) :=
+  let c := sceneCounts l
+  if c.total = 0 then none
+  else some ((c.tp : Rat) / c.total, (c.fp : Rat) / c.total, (c.tn : Rat) / c.total, (c.fn : Rat) / c.total)
 
 end PEval.Analyzer
